@@ -348,6 +348,28 @@ template <typename T> void shapes()
   { vec_t<T, 3, true> pa(t), pb(genv<vec_t<T, 3>>(4)); auto r = pa + pb; CHECK_COMP("v3a_add", r, (T)(get(pa, i) + get(pb, i)), showv(pa) + " " + showv(pb)) }
   { vec_t<T, 3, true> pa(t); auto r = pa * s; CHECK_COMP("v3a_mul_vs", r, (T)(get(pa, i) * s), showv(pa) + " " + show(s)) }
   { vec_t<T, 3, true> pa(t), pb(genv<vec_t<T, 3>>(4)); auto r = min(pa, pb); CHECK_COMP("v3a_min", r, std::min(get(pa, i), get(pb, i)), showv(pa) + " " + showv(pb)) }
+  {
+    // the padded 3-component shape with something left in its padding lane: reductions, dot, comparisons and the
+    // unary operators see the three components only
+    using V = vec_t<T, 3, true>;
+    V pa = genv<V>(1), pb = genv<V>(3);
+    std::string ab = showv(pa) + " " + showv(pb);
+    CHECK_SCALAR("v3a_dot", dot(pa, pb), (T)(get(pa, 0) * get(pb, 0) + get(pa, 1) * get(pb, 1) + get(pa, 2) * get(pb, 2)), ab)
+    CHECK_SCALAR("v3a_sum", pa.sum(), (T)(get(pa, 0) + get(pa, 1) + get(pa, 2)), showv(pa))
+    CHECK_SCALAR("v3a_product", pa.product(), (T)(get(pa, 0) * get(pa, 1) * get(pa, 2)), showv(pa))
+    CHECK_SCALAR("v3a_reduce_add", reduce_add(pa), (T)(get(pa, 0) + get(pa, 1) + get(pa, 2)), showv(pa))
+    CHECK_SCALAR("v3a_reduce_mul", reduce_mul(pa), (T)(get(pa, 0) * get(pa, 1) * get(pa, 2)), showv(pa))
+    CHECK_SCALAR("v3a_reduce_min", reduce_min(pa), std::min(std::min(get(pa, 0), get(pa, 1)), get(pa, 2)), showv(pa))
+    CHECK_SCALAR("v3a_reduce_max", reduce_max(pa), std::max(std::max(get(pa, 0), get(pa, 1)), get(pa, 2)), showv(pa))
+    V pc = pa;
+    pc.padding_ = gen<T>(11);          // same components, another padding
+    CHECK_SCALAR("v3a_eq_ignores_padding", (pa == pc), true, showv(pa))
+    CHECK_SCALAR("v3a_ne_ignores_padding", (pa != pc), false, showv(pa))
+    CHECK_SCALAR("v3a_anyLessThan", anyLessThan(pa, pc), false, showv(pa))
+    { auto r = pa - pb; CHECK_COMP("v3a_sub", r, (T)(get(pa, i) - get(pb, i)), ab) }
+    { auto r = pa * pb; CHECK_COMP("v3a_mul", r, (T)(get(pa, i) * get(pb, i)), ab) }
+    { auto r = max(pa, pb); CHECK_COMP("v3a_max", r, std::max(get(pa, i), get(pb, i)), ab) }
+  }
   { vec_t<T, 3> u = genv<vec_t<T, 3>>(6); auto r = cross(t, u);
     T e[3] = {(T)(t.y * u.z - t.z * u.y), (T)(t.z * u.x - t.x * u.z), (T)(t.x * u.y - t.y * u.x)};
     CHECK_COMP("cross", r, e[i], showv(t) + " " + showv(u)) }
@@ -375,6 +397,17 @@ int main(int argc, char **argv)
       auto cs = cos(a); CHECK_COMP("cos", cs, std::cos(get(a, i)), showv(a))
       auto rc = rcp(a); CHECK_COMP("rcp", rc, rcp(get(a, i)), showv(a))
       auto rs = rcp_safe(a); CHECK_COMP("rcp_safe", rs, rcp_safe(get(a, i)), showv(a))
+      {
+        using V = vec3fa;
+        vec3fa pa = genv<vec3fa>(1), pb = genv<vec3fa>(4);
+        float dd = get(pa, 0) * get(pa, 0) + get(pa, 1) * get(pa, 1) + get(pa, 2) * get(pa, 2);
+        CHECK_SCALAR("v3fa_length", length(pa), std::sqrt(dd), showv(pa))
+        auto nm = normalize(pa); CHECK_COMP("v3fa_normalize", nm, (float)(get(pa, i) * rsqrt(dd)), showv(pa))
+        auto cr = cross(pa, pb);
+        float e[3] = {get(pa, 1) * get(pb, 2) - get(pa, 2) * get(pb, 1), get(pa, 2) * get(pb, 0) - get(pa, 0) * get(pb, 2),
+            get(pa, 0) * get(pb, 1) - get(pa, 1) * get(pb, 0)};
+        CHECK_COMP("v3fa_cross", cr, e[i], showv(pa) + " " + showv(pb))
+      }
       CHECK_SCALAR("length", length(a), std::sqrt(dot(a, a)), showv(a))
       auto nm = normalize(a); CHECK_COMP("normalize", nm, (float)(get(a, i) * rsqrt(dot(a, a))), showv(a))
     }
